@@ -450,7 +450,7 @@ verif_main(int argc, char** argv, const Property& p)
           g_stats.cls("front:enum");
           if (r.failed())
             return report_failure(p, c, r.msg);
-          if (now_s() - t0 > max_seconds * 3)
+          if (now_s() - t0 > std::max(max_seconds * 3, 600.))
             {
               enum_complete = false;
               break;
